@@ -130,13 +130,18 @@ def main(run):
             run.cov["samples"].append({"kind": kind, "input": text[:600], "outcome": st})
     # ---- stream 4: heavy inputs one per process under a watchdog (recursion depth, memory)
     heavy = []
-    # 30000 components overflowed the stack before the repair of F11 (a243d01; threshold here between 27000 and
-    # 30000); memory is quadratic in the depth (F24): 30000 components need 2.6 GiB, 40000 about 4.7 GiB
-    depth_cases = [2000, 30000] if quick else [2000, 4000, 30000, 40000]
-    for dpt in depth_cases:
-        heavy.append(("deep-account-%d" % dpt, "2024-01-01\n " + ":".join(["a"] * dpt) + "  1\n b\n"))
-    for name, text in heavy:
-        rr = run_one({"conf": {"toml": toml}, "inputs": [{"text": text}], "ops": [{"op": "txns"}]}, timeout=180)
+    # F11 (repaired by a243d01): the recursive construction of account parents overflowed the stack. The regression
+    # runs in a thread with a small stack ("stack_kb"), where the old code already overflows at 1000 components
+    # (on the 8 MiB main stack it needed about 28000 components and 2.5 GiB because of F24)
+    depth_cases = [(2000, None), (3000, 512)] if quick else [(2000, None), (4000, None), (3000, 512), (10000, 1024)]
+    for dpt, kb in depth_cases:
+        heavy.append(("deep-account-%d%s" % (dpt, "" if kb is None else "-stack%dk" % kb),
+                      "2024-01-01\n " + ":".join(["a"] * dpt) + "  1\n b\n", kb))
+    for name, text, kb in heavy:
+        rq = {"conf": {"toml": toml}, "inputs": [{"text": text}], "ops": [{"op": "txns"}]}
+        if kb is not None:
+            rq["stack_kb"] = kb
+        rr = run_one(rq, timeout=180)
         run.cov["evaluations"] += 1
         st = rr.get("stage")
         classes[("heavy", st)] = classes.get(("heavy", st), 0) + 1
